@@ -312,7 +312,6 @@ OnError(h, o, hd, e) ==
     [] op = "tap" -> SinkError(IF h.inst[t.id].te THEN [Emit(h, Ev("tap", t.id, "e", e)) EXCEPT !.inst[t.id].te = FALSE] ELSE h, c, e)
     [] op = "contains" -> SinkComplete(SinkNext(h, c, 0), c, hd.s)
     [] op = "materialize" -> SinkComplete(SinkNext(h, c, EncMatE(e)), c, hd.s)
-    [] op \in {"take_until", "skip_until", "sample"} /\ hd.b = 0 -> h
     [] op = "amb" ->
          LET st == h.ctl[c]
              won == IF st.has THEN st.acc = hd.s ELSE TRUE
@@ -359,7 +358,7 @@ OnComplete(h, o, hd) ==
     [] op = "amb" ->
          LET won == IF st.has THEN st.acc = hd.s ELSE TRUE
              h1 == IF st.has THEN Touch(h, Lk("acc", c), "W") ELSE [Touch(h, Lk("acc", c), "W") EXCEPT !.ctl[c].has = TRUE, !.ctl[c].acc = hd.s]
-         IN IF won THEN SinkComplete(h1, c, hd.s) ELSE UpAbort(h1, c, hd.s)
+         IN IF won THEN SinkCompleteForce(h1, c) ELSE UpAbort(h1, c, hd.s)
     [] op = "concat" -> ConcatNext(h, c)
     [] OTHER -> SinkComplete(h, c, hd.s)
 
@@ -455,11 +454,11 @@ Subscribe0(h, t, o) ==
              ps == NewObserver(pt[1], p0[2], 1)
          IN Subscribe(Subscribe(ps[1], t.in[2], pt[2]), t.in[1], ps[2])
     [] t.op = "switch_on_next" ->
+         \* both observers first, then the source, then the target
          LET p0 == NewCtl(h, t, o)
              p1 == NewObserver(p0[1], p0[2], 1)
-             h1 == Subscribe(p1[1], t.in[1], p1[2])
-             p2 == NewObserver(h1, p0[2], 2)
-         IN IF h1.stuck # "" THEN h1 ELSE Subscribe(p2[1], t.in[2], p2[2])
+             p2 == NewObserver(p1[1], p0[2], 2)
+         IN Subscribe(Subscribe(p2[1], t.in[1], p1[2]), t.in[2], p2[2])
     [] t.op = "window_with_count" ->
          LET ps == NewSubject(h, "plain", 0)
              p0 == NewCtl(ps[1], t, o)
